@@ -317,12 +317,18 @@ func (fs LocalFileSystem) Copy(ctx context.Context, src, dst string, options *Co
 			return err
 		}
 
+		rel, err := filepath.Rel(srcPath, p)
+		if err != nil {
+			return err
+		}
+		dstMember := filepath.Join(dstPath, rel)
+
 		if fi.IsDir() {
-			if err := os.Mkdir(dstPath, srcPerm); err != nil {
+			if err := os.Mkdir(dstMember, srcPerm); err != nil {
 				return errFromOSCreate(err)
 			}
 		} else {
-			if err := copyRegularFile(srcPath, dstPath, srcPerm); err != nil {
+			if err := copyRegularFile(p, dstMember, srcPerm); err != nil {
 				return err
 			}
 		}
